@@ -17,7 +17,7 @@ func init() {
 	Props["C18"] = Prop{
 		Title: "The slog handler reproduces slog's attribute and group semantics",
 		Fn:    checkC18,
-		Explanation: "Decides the kind table of convertAttrToField against the slog.Kind constants of the installed log/slog (each explicit arm uses the accessor of its own kind - a mismatched accessor panics inside slog - and a zap constructor of the accessor's result type, with the attribute's key; LogValuers are resolved and re-converted; every other kind reaches the Any fallback; the empty-Attr test comes first), the monotone threshold form of the level map shared by Enabled and Handle, the slog.Handler contract clauses that are visible in the code shape (empty group name returns the receiver; group attribute without attributes → Skip; empty key → Inline), the sibling agreement of Handle and WithAttrs on when pending groups are emitted (same guard atoms, before the field, once; cleared iff emitted), derivation purity (no store through the receiver, no append onto the receiver's slice), and handled-iff-Check-accepts. " +
+		Explanation: "Decides the kind table of convertAttrToField against the slog.Kind constants of the installed log/slog (each explicit arm uses the accessor of its own kind - a mismatched accessor panics inside slog - and a zap constructor of the accessor's result type, with the attribute's key; LogValuers are resolved and re-converted; every other kind reaches the Any fallback; the empty-Attr test comes first), the monotone threshold form of the level map shared by Enabled and Handle, the slog.Handler contract clauses that are visible in the code shape (empty group name returns the receiver; group attribute without attributes → Skip; empty key → Inline), the sibling agreement of Handle and WithAttrs on when pending groups are emitted (guarded by exactly field != Skip and an emitted-state flag - a captured cell or an SSA register, of either polarity - that is initialised to 'pending', flips on the emitting path and nowhere else; cleared in the derived handler iff emitted), derivation purity (no store through the receiver, no append onto the receiver's slice), and handled-iff-Check-accepts. " +
 			"NOT decided: full tree semantics against a reference model of slog.",
 		Assumptions: commonAssumptions,
 	}
